@@ -27,12 +27,14 @@ import shutil
 import struct
 import time
 
+from harness import common
 from harness.common import SuiteResult, rng_for, run_evdrv, REPO, VERIF, ddmin
 from harness.world.realindex import RealIndex, run as run_coro, make_env
 from harness.world.chaingen import be, hashx_of
 from harness.suites import index as ixs
 
 SUITE = 'compaction'
+HONOURS_DEADLINE = True      # the case loop stops when common.out_of_time()
 FULL = 70000          # more batches than any compaction with a positive limit needs
 
 
@@ -1056,6 +1058,8 @@ def _run(tier, seed):
         cases += [(cs, f'enum {i}') for i, cs in enumerate(enum_small(tier))]
         bad = 0
         for case, label in cases:
+            if common.out_of_time():
+                break
             try:
                 run = run_case(res, case, [list(g) for g in groups], label)
             except Exception as e:     # the real database could not even be observed: not what the model says
